@@ -203,7 +203,8 @@ var rErrnoTable = &Rule{
 		}
 		// writer: member -> source
 		wr := map[string]string{}
-		sx.EachInstr(enc, func(in ssa.Instruction) {
+		ereg := regionOf(enc)
+		ereg.each(func(in ssa.Instruction) {
 			st, ok := in.(*ssa.Store)
 			if !ok {
 				return
@@ -296,7 +297,7 @@ var rErrnoTable = &Rule{
 			return
 		}
 		var written string
-		sx.EachInstr(enc, func(in ssa.Instruction) {
+		ereg.each(func(in ssa.Instruction) {
 			if st, ok := in.(*ssa.Store); ok {
 				if fa, ok := st.Addr.(*ssa.FieldAddr); ok && sx.FieldOf(fa).Name() == "Arch" {
 					written, _ = sx.ConstString(st.Val)
